@@ -195,3 +195,22 @@ PROPS["C06"] = dict(
                              BinP={"quick": "BinPQuick", "thorough": "BinPThorough"},
                              HypN={"quick": "HypNQuick", "thorough": "HypNThorough"}), timeout={"quick": 600, "thorough": 7000})],
 )
+
+PROPS["C11"] = dict(
+    family="qci", specdir="qci",
+    technique="relational TLA+ specification (Valid) of the order-statistic interval with exact BigInt binomial masses; the greedy accumulation is model-checked against it (and for nesting) on a bounded grid; recorded QuantileCI calls are validated by TLC against Valid, nesting across confidence levels, and - for n > 30 - the rounding/trim/clamp structure of the normal band with Phi/PhiInv supplied by the harness",
+    level_text="QuantileCI.tla: TLC checks that the greedy accumulation satisfies Valid (confidence = mass of the buckets, >= c, contains a mode, an end bucket is needed, Ambiguous means the shifted interval has the same mass) and is nested in c for all n <= 8, q = a/8, c = j/32. QuantileCITrace.tla: every recorded call for n = 1..12 (thorough 1..30), q = a/16 (a/40) and q within 1e-9 of 0 and 1, c on a grid of 40 (200) levels plus -0.5, 1.5 and every reported cumulative mass with its two float neighbours, is judged by Valid with exact masses and must be nested with all earlier results for the same distribution; for n in {31,32,50,100,1000,2000} the returned orders must be the central normal band rounded outward to half-integers (upper end optionally one lower with Ambiguous), clamped, with Confidence its normal mass. SampleCI is replayed on every enumerated unweighted sample and every order pair",
+    level_note="Trusted: TLC, binder comparison code; for n > 30 the values of PhiInv (math.Erfinv) and Phi (math.Erfc) computed by the harness independently of the repository's NormalDist. Tolerances: Confidence 1e-9, 'at least c' as >= c - 1e-12, rounding boundaries within 1e-7 accept either side. For c <= 0 or q in {0,1} with n > 30 only the range and Confidence >= c are required (no central band exists).",
+    stages=[
+        dict(name="greedy", kind="mc", module="QuantileCI.tla", cfg="Greedy.cfg", consts=dict(MaxN={"quick": 8, "thorough": 9}, QDen=8, CDen={"quick": 32, "thorough": 64}),
+             note="greedy accumulation satisfies the relational specification and is nested in c"),
+        dict(name="trace", kind="trace", module="QuantileCITrace.tla", cfg="QuantileCITrace.cfg",
+             record_args={"quick": ["-n", 80, "-max", 12, "-qden", 16, "-levels", 40], "thorough": ["-n", 100000, "-max", 30, "-qden", 40, "-levels", 200]},
+             shards={"quick": 8, "thorough": 16}, timeout={"quick": 900, "thorough": 7000}),
+        dict(name="traceN", kind="trace", module="QuantileCITrace.cfg".replace(".cfg", ".tla"), cfg="QuantileCITrace.cfg",
+             record_args={"quick": ["-n", 40, "-big", "-levels", 40], "thorough": ["-n", 100000, "-big", "-levels", 200]},
+             shards={"quick": 4, "thorough": 16}),
+        dict(name="sampleci", kind="gen", specdir="sample", module="Sample.tla", cfg="Sample_gen.cfg",
+             consts=dict(MaxLen={"quick": 4, "thorough": 5}, WeightVals="{1}", Depth=0, MaxObjs=1)),
+    ],
+)
